@@ -156,19 +156,21 @@ def check_arith(case):
                 if live is not None:
                     return live
                 # the arithmetics/* functions declare tp.Iterable operands, the gadgets of generation.py declare lists
-                return arith.hand(a, case.get('hand', 'list')) if kind in ('sub', 'sub_cmp', 'div_mod', 'sqrt', 'equal') else list(a)
+                fn_decl = {'sub': ar.add_sub_two_numbers, 'sub_cmp': ar.add_subtract_with_compare, 'div_mod': ar.add_div_mod,
+                           'sqrt': ar.add_sqrt, 'equal': ar.add_equal}.get(kind)
+                return arith.hand(a, case.get('hand', 'list'), fn_decl) if fn_decl is not None else list(a)
 
             kw_out = {}
             if kind in ('plus_one', 'ite', 'pairwise_xor', 'pairwise_ite'):
                 kw_out['add_outputs'] = add_outputs
             if kind == 'sub':
-                ret = ar.add_sub_two_numbers(c, arg_a(), arith.hand(b, case.get('hand', 'list')), big_endian=be)
+                ret = ar.add_sub_two_numbers(c, arg_a(), arith.hand(b, case.get('hand', 'list'), ar.add_sub_two_numbers), big_endian=be)
             elif kind == 'sub_cmp':
-                ret = ar.add_subtract_with_compare(c, arg_a(), arith.hand(b, case.get('hand', 'list')), big_endian=be)
+                ret = ar.add_subtract_with_compare(c, arg_a(), arith.hand(b, case.get('hand', 'list'), ar.add_subtract_with_compare), big_endian=be)
             elif kind == 'div_mod':
                 b = p2[:n] if not case.get('mismatch') else p2[:n + 1]
                 try:
-                    ret = ar.add_div_mod(c, arg_a(), arith.hand(b, case.get('hand', 'list')), big_endian=be)
+                    ret = ar.add_div_mod(c, arg_a(), arith.hand(b, case.get('hand', 'list'), ar.add_div_mod), big_endian=be)
                 except BadShapesError:
                     if len(b) != len(a):
                         return {'nt': False, 'cls': cls | {'shape_mismatch_rejected'}}
